@@ -10,12 +10,12 @@ if only:
     muts = [m for m in muts if m in only]
 os.makedirs("/tmp/wtm", exist_ok=True)
 # run from a snapshot of /verif so that the checks stay fixed while the matrix runs (the working copy may be edited meanwhile)
-SNAP = "/tmp/wtm/verif_snapshot"
+SNAP = f"/tmp/wtm/verif_snapshot_{os.getpid()}"
 shutil.rmtree(SNAP, ignore_errors=True)
 shutil.copytree(V, SNAP, ignore=shutil.ignore_patterns(".git", "replays", "seeded_staging", "__pycache__", "evidence"))
 
 def prep(m):
-    wt = f"/tmp/wtm/{m}"
+    wt = f"/tmp/wtm/{os.getpid()}_{m}"
     subprocess.run(["git", "-C", "/repo", "worktree", "remove", "--force", wt], capture_output=True)
     subprocess.run(["git", "-C", "/repo", "worktree", "add", "-f", wt, "HEAD"], capture_output=True, check=True)
     pf = f"{V}/seeded/{m}/patch.rebased.diff" if os.path.exists(f"{V}/seeded/{m}/patch.rebased.diff") else f"{V}/seeded/{m}/patch.diff"
@@ -25,8 +25,15 @@ def prep(m):
     return wt
 
 def run(args):
+    try:
+        return run_(args)
+    except Exception as e:  # noqa: BLE001
+        return args[0], args[1], f"error: {e!r}"[:80], []
+
+
+def run_(args):
     m, p, wt = args
-    env = dict(os.environ, PYVC_REPO=wt, PYVC_EVIDENCE_DIR=f"/tmp/wtm/ev_{m}", PYVC_REPLAY_DIR=f"/tmp/wtm/rp_{m}")
+    env = dict(os.environ, PYVC_REPO=wt, PYVC_EVIDENCE_DIR=f"/tmp/wtm/ev_{os.getpid()}_{m}", PYVC_REPLAY_DIR=f"/tmp/wtm/rp_{os.getpid()}_{m}")
     os.makedirs(env["PYVC_EVIDENCE_DIR"], exist_ok=True)
     try:
         r = subprocess.run(["python3-vt", "-m", "pyvc", "check", p], cwd=SNAP, env=env, capture_output=True, text=True, timeout=900)
@@ -55,7 +62,7 @@ with cf.ThreadPoolExecutor(max_workers=14) as ex:
 for m, wt in wts.items():
     if wt:
         subprocess.run(["git", "-C", "/repo", "worktree", "remove", "--force", wt], capture_output=True)
-    for d in (f"/tmp/wtm/ev_{m}", f"/tmp/wtm/rp_{m}"):
+    for d in (f"/tmp/wtm/ev_{os.getpid()}_{m}", f"/tmp/wtm/rp_{os.getpid()}_{m}"):
         shutil.rmtree(d, ignore_errors=True)
 shutil.rmtree(SNAP, ignore_errors=True)
 old = json.load(open(f"{V}/seeded/matrix.json")) if os.path.exists(f"{V}/seeded/matrix.json") and (only or os.environ.get("ONLY_PROPS") or os.environ.get("ONLY_OWN")) else {}
